@@ -91,13 +91,13 @@ impl Sanitizer {
 
     /// Sanitize to clean string
     fn sanitize_to_string(&self, input: &str) -> String {
-        let mut result = input.to_string();
+        // Replace first: with a separator only ASCII letters and digits survive, so the
+        // lower-casing below cannot introduce new characters (e.g. 'İ' -> "i̇", 'K' -> 'k')
+        let mut result = self.replace_non_alphanumeric(input);
 
         if self.lowercase {
             result = result.to_lowercase();
         }
-
-        result = self.replace_non_alphanumeric(&result);
 
         if !self.keep_zeros {
             result = self.remove_leading_zeros(&result);
@@ -148,7 +148,7 @@ impl Sanitizer {
         let mut last_was_sep = false;
 
         for ch in input.chars() {
-            if ch.is_alphanumeric() {
+            if ch.is_ascii_alphanumeric() {
                 result.push(ch);
                 last_was_sep = false;
             } else if !last_was_sep {
